@@ -220,7 +220,7 @@ func c13Run(scn *c13Scn) c13Obs {
 	go func() { served <- srv.ListenAndServe() }()
 	closeServer := func() {
 		for i := 0; i < 2000000; i++ {
-			if err := srv.Close(); err == nil || err.Error() != "server not listening" {
+			if err := srv.Close(); !notServingYet(err) {
 				break
 			}
 		}
